@@ -1,8 +1,10 @@
 mod codec;
+mod fut;
 mod interp;
 mod ir;
 mod pl;
 mod record;
+mod tokio;
 
 use ir::{Program, Steps};
 use record::{log, take_log, Recorder};
